@@ -39,6 +39,7 @@ pub fn exec(op: &str, args: &[&str]) -> String {
         "tostr" => enc::op_tostr(args),
         "json" => enc::op_json(args),
         "tojson" => enc::op_tojson(args),
+        "jsonfile" => enc::op_jsonfile(args),
         "elg" => enc::op_elg(args),
         "ae" => enc::op_ae(args),
         "dlog" | "dlogsearch" => enc::op_dlog(args),
